@@ -609,7 +609,14 @@ func (ex *Exec) applyContract(st *State, site ssa.CallInstruction, sel string, c
 		default:
 			allTerms = false
 		}
-		c.binds[fmt.Sprintf("arg%d", i)] = c.binds[n]
+		// argN is the N-th PARAMETER (the receiver of a method is `this`, not arg0)
+		if len(names) > 0 && names[0] == "this" {
+			if i > 0 {
+				c.binds[fmt.Sprintf("arg%d", i-1)] = c.binds[n]
+			}
+		} else {
+			c.binds[fmt.Sprintf("arg%d", i)] = c.binds[n]
+		}
 	}
 	// the callee's ghost variables are existential from the caller's point of view
 	for _, g := range con.Ghosts {
